@@ -75,7 +75,7 @@ var c10Plain = map[string][]byte{
 	"small": textBytes(41, 300),
 	"big":   append(randBytes(41, 14000), textBytes(42, 6000)...),
 	"other": []byte("pre-existing target content\n"),
-	"large": textBytes(43, 400000),
+	"large": textBytes(43, 1000000),
 }
 
 var c10ContentCache sync.Map
